@@ -79,3 +79,42 @@ Proof.
     + constructor; [|constructor]. right; reflexivity.
   - reflexivity.
 Qed.
+
+(** A fixed value is a value, whatever number it is -- 0 (no selection, no migration) in particular: [Some 0] is not [None].
+    Position by position: a slot fixed at [v] is dropped when contracting and written back as [v] when expanding, and the
+    slots behind it keep their alignment; a free slot is kept and consumed.  (The general statements are
+    [up_down_inverse] / [down_up_inverse], for every [Some v]; these two make the step at one slot explicit.) *)
+Lemma project_fixed_slot {A : Type} (dflt v x : A) (p : list A) (fx : list (option A)) (d : list A) :
+  project_down (x :: p) (Some (Some v :: fx)) = Some d ->
+  project_down p (Some fx) = Some d /\
+  project_up dflt d (Some (Some v :: fx)) = v :: project_up dflt d (Some fx).
+Proof.
+  cbn. destruct (Nat.eqb (length p) (length fx)); [|discriminate].
+  intros E; injection E as <-. split; reflexivity.
+Qed.
+
+Lemma project_free_slot {A : Type} (dflt x : A) (p : list A) (fx : list (option A)) (d : list A) :
+  project_down (x :: p) (Some (None :: fx)) = Some d ->
+  exists d', d = x :: d' /\ project_down p (Some fx) = Some d' /\
+             project_up dflt d (Some (None :: fx)) = x :: project_up dflt d' (Some fx).
+Proof.
+  cbn. destruct (Nat.eqb (length p) (length fx)); [|discriminate].
+  intros E; injection E as <-. eexists; repeat split; reflexivity.
+Qed.
+
+(** non-vacuity at zero: parameters fixed at exactly 0 before and after a free one *)
+Example zero_fixed_nonvacuous :
+  project_down [1; 2; 3] (Some [Some 0; None; Some 0]) = Some [2] /\
+  project_up 7 [2] (Some [Some 0; None; Some 0]) = [0; 2; 0] /\
+  exists w, opt ll_first ll_first O_start [1; 2] None None (Some [Some 0; None]) false false = Some w /\
+    contract true (w_lo w) (w_hi w) (w_start w) (fun x => fst (opt_objective ll_first ll_first false (Some [Some 0; None]) false x)) (w_oracle w) /\
+    w_start w = [2] /\ w_x w = [0; 2] /\ w_evals w = [[0; 2]].
+Proof.
+  split; [reflexivity|]. split; [reflexivity|].
+  eexists. split; [reflexivity|]. cbn [w_lo w_hi w_start w_oracle w_x w_evals]. unfold O_start. cbn [o_trace o_x o_f]. split.
+  - unfold contract. cbn [o_trace o_x o_f hd_error]. repeat split.
+    + constructor; [|constructor]. split; reflexivity.
+    + left; reflexivity.
+    + constructor; [|constructor]. right; reflexivity.
+  - repeat split; reflexivity.
+Qed.
